@@ -486,7 +486,95 @@ func c11HandshakeFailure(r *Result) {
 	}
 }
 
+// c11CallbackInProgress: Shutdown while a session is inside a callback of the application (session authentication, request
+// authentication, an operation handler) that does not return. "Otherwise it returns the context's error": Shutdown must come
+// back with the context's error soon after the context ends, whatever the session is doing - and with nil once it is released.
+func c11CallbackInProgress(r *Result) {
+	for _, where := range []string{"SessionAuthHandler", "RequestAuthHandler", "operation handler"} {
+		key := "Shutdown with a 200 ms context while a session is blocked inside its " + where
+		r.eval(key, true)
+		release := make(chan struct{})
+		entered := make(chan struct{}, 1)
+		block := func() {
+			select {
+			case entered <- struct{}{}:
+			default:
+			}
+			<-release
+		}
+		s := &kmip.Server{}
+		switch where {
+		case "SessionAuthHandler":
+			s.SessionAuthHandler = func(c net.Conn) (interface{}, error) { block(); return nil, nil }
+		case "RequestAuthHandler":
+			s.RequestAuthHandler = func(sc *kmip.SessionContext, a *kmip.Authentication) (interface{}, error) { block(); return 1, nil }
+		}
+		s.Handle(kmip.OPERATION_ACTIVATE, func(ctx *kmip.RequestContext, item *kmip.RequestBatchItem) (interface{}, error) {
+			if where == "operation handler" {
+				block()
+			}
+			return kmip.ActivateResponse{UniqueIdentifier: "x"}, nil
+		})
+		sc, cc := rec.Pipe()
+		rc := rec.NewConn(sc, 1)
+		l := rec.NewListener()
+		l.Push(rec.AcceptStep{Conn: rc})
+		init := make(chan struct{})
+		ret := make(chan error, 1)
+		go func() { ret <- s.Serve(l, init) }()
+		<-init
+		_ = cc.SetDeadline(time.Now().Add(6 * time.Second))
+		req := kmip.Request{Header: kmip.RequestHeader{Version: kmip.ProtocolVersion{Major: 1, Minor: 4}, BatchCount: 1,
+			Authentication: kmip.Authentication{CredentialType: kmip.CREDENTIAL_TYPE_USERNAME_AND_PASSWORD, CredentialValue: kmip.CredentialUsernamePassword{Username: "u", Password: "p"}}},
+			BatchItems: []kmip.RequestBatchItem{{Operation: kmip.OPERATION_ACTIVATE, RequestPayload: kmip.ActivateRequest{UniqueIdentifier: "a"}}}}
+		if where == "operation handler" {
+			req.Header.Authentication = kmip.Authentication{}
+		}
+		go func() { _ = kmip.NewEncoder(cc).Encode(&req) }()
+		select {
+		case <-entered:
+		case <-time.After(3 * time.Second):
+			r.find(Finding{Kind: "disagreement", What: "scenario did not reach the callback", Input: key})
+		}
+		ctx, cancel := context.WithTimeout(context.Background(), 200*time.Millisecond)
+		t0 := time.Now()
+		sdc := make(chan error, 1)
+		go func() { sdc <- s.Shutdown(ctx) }()
+		obs := ""
+		sdReturned := false
+		select {
+		case e := <-sdc:
+			sdReturned = true
+			obs = fmt.Sprintf("returned %v after %v", e, time.Since(t0).Round(100*time.Millisecond))
+		case <-time.After(2 * time.Second):
+			obs = "still blocked 2 s after its context ended"
+		}
+		cancel()
+		if !strings.HasPrefix(obs, "returned context deadline exceeded after 200ms") && !strings.HasPrefix(obs, "returned context deadline exceeded after 300ms") {
+			r.find(Finding{Kind: "violation", What: "Shutdown did not return its context's error when the context ended while a session was still busy", Input: key, Expect: "returned context deadline exceeded after 200ms", Actual: obs})
+		}
+		close(release)
+		go func() { var resp kmip.Response; _ = kmip.NewDecoder(cc).Decode(&resp); cc.Close() }()
+		select {
+		case <-rc.Closed():
+		case <-time.After(3 * time.Second):
+		}
+		if !sdReturned {
+			select {
+			case <-sdc:
+			case <-time.After(3 * time.Second):
+			}
+		}
+		select {
+		case <-ret:
+		case <-time.After(3 * time.Second):
+		}
+		r.Stats["callback-in-progress-scenarios"]++
+	}
+}
+
 func runC11(r *Result, d *drv.Driver, tier string, seed int64, replay string) {
+	c11CallbackInProgress(r)
 	c11ShutdownFirst(r, d)
 	c11AfterServeFailed(r)
 	c11HandshakeFailure(r)
@@ -495,7 +583,7 @@ func runC11(r *Result, d *drv.Driver, tier string, seed int64, replay string) {
 		maxLen = 7
 	}
 	r.Rule = fmt.Sprintf("exhaustive: every schedule up to length %d over {connection arrives and is served, request put in flight (handler blocked), handler released, client closes, Shutdown called, Shutdown landing between Accept returning and registration, context cancelled} that is a run of the Lean transition system; "+
-		"each is replayed on the real Server through an injected listener (Shutdown is called from inside Accept to place it deterministically), blocking handlers and a cancellable context; observed: Shutdown's and Serve's return values, sessions started / still open / connections closed late, and the order of Shutdown's return relative to session starts and ends. plus: Shutdown before Serve; Shutdown after Serve ended by itself on a permanent Accept error with sessions still open; Shutdown after the TLS handshake of an accepted connection failed (the connection must have been closed). distinct = one per schedule; non-trivial = contains Shutdown", maxLen)
+		"each is replayed on the real Server through an injected listener (Shutdown is called from inside Accept to place it deterministically), blocking handlers and a cancellable context; observed: Shutdown's and Serve's return values, sessions started / still open / connections closed late, and the order of Shutdown's return relative to session starts and ends. plus: Shutdown before Serve; Shutdown after Serve ended by itself on a permanent Accept error with sessions still open; Shutdown after the TLS handshake of an accepted connection failed (the connection must have been closed); Shutdown with a short context while a session sits inside the session-auth / request-auth callback or a handler. distinct = one per schedule; non-trivial = contains Shutdown", maxLen)
 	r.Exhaustive = true
 	alphabet := []string{"A", "Q", "R", "C", "S", "L", "X"}
 	var seqs [][]string
